@@ -35,6 +35,7 @@ pub struct SnapState {
     pub send_init_window: u32,
     /// streams whose END_STREAM h2 has processed (logged once, for C07's "complete message received")
     pub recv_es_logged: std::collections::BTreeSet<u32>,
+    pub closed_clean_logged: std::collections::BTreeSet<u32>,
     /// C18: reference bounds derived from the configuration (flood family only)
     pub c18: Option<C18Bounds>,
     pub max_unheld: usize,
@@ -370,6 +371,9 @@ impl SnapHook {
             let recv_ended = x.state.starts_with("HalfClosedRemote") || x.state.starts_with("Closed(EndStream") || x.state.starts_with("Closed(ErrorAfterEndStream");
             if recv_ended && st.recv_es_logged.insert(x.id) {
                 crate::sim::log(0, crate::trace::EvK::SnapFact { side, what: "recv_end_stream_processed", v: x.id as i64 });
+            }
+            if x.state.starts_with("Closed(EndStream") && st.closed_clean_logged.insert(x.id) {
+                crate::sim::log(0, crate::trace::EvK::SnapFact { side, what: "closed_end_stream", v: x.id as i64 });
             }
             // keep only the variant shape for state-coverage accounting
             let shape: String = x.state.chars().take_while(|c| *c != '(' && *c != '{').collect::<String>().trim().to_string();
